@@ -93,3 +93,68 @@ Fixpoint hrun (islle : list bool) (j : nat) (Tm : Q) (p : sst * sobj) (hs : list
 
 Definition hist_eqb (a b : list (sst * bool)) : bool :=
   list_eqb (fun x y => sst_eqb (fst x) (fst y) && Bool.eqb (snd x) (snd y)) a b.
+
+(* ====================================================================================================
+   VLE on a persistent object.  Of everything a VLE object keeps between calls (_nonzero, _index, _chemical, the
+   BubblePoint / DewPoint objects, _T, _P, _V, _K, _z_last, _v), only _nonzero / _index reach the flows: on a hit of the
+   _nonzero cache _setup takes [index = self._index] instead of recomputing it.  (_T, _P, _V, _K, _z_last are initial
+   guesses handed to the solver oracles; the equilibrium objects are covered by C04 / C08.)  Everything else _setup does
+   -- pooling, relocation of the phase-locked chemicals, the totals -- is done on EVERY call. *)
+Record vobj := mkvobj { vo_nz : option (list nat); vo_idx : list nat }.
+Definition vobj0 : vobj := mkvobj None [].
+
+(* the part of _setup that consults the object *)
+Definition setup_index (cf : cfg) (o : vobj) (mol : vec) : list nat * vobj :=
+  let nz := nz_idx mol in
+  if opt_eqb (list_eqb Nat.eqb) (vo_nz o) (Some nz) then (vo_idx o, o)
+  else let ix := filter (fun c => kind_eqb (kind_at cf c) KVle) nz in (ix, mkvobj (Some nz) ix).
+
+(* the object is coherent when its remembered index is the one of its remembered set of chemicals *)
+Definition vobj_ok (cf : cfg) (o : vobj) : Prop :=
+  match vo_nz o with
+  | Some nz => vo_idx o = filter (fun c => kind_eqb (kind_at cf c) KVle) nz
+  | None => True
+  end.
+
+(* ====================================================================================================
+   binary_phase_fraction.phase_fraction(zs, Ks, guess, za, zb) as LLE uses it (za = zb = 0):
+   N > 2 -> as_valid_fraction(solve_phase_fraction_Rashford_Rice(...)) (a bracketing solver: oracle [rr]);
+   Ks.max() <= 1 + 1e-9 -> 1;  Ks.min() >= 1 - 1e-9 -> 0;  N == 2 -> as_valid_fraction(compute_phase_fraction_2N);
+   otherwise ValueError. *)
+Definition c_1p : Q := 281474976992131 # 281474976710656.     (* 1.0 + 1e-9 *)
+Definition c_1m : Q := 9007199245733793 # 9007199254740992.     (* 1.0 - 1e-9 *)
+Definition as_valid_fraction (x : Q) : Q := if qltb x 0 then 0 else if qltb 1 x then 1 else x.
+Definition vmax (v : vec) : Q := match v with [] => 0 | x :: t => fold_left Qmax t x end.
+Definition vmin (v : vec) : Q := match v with [] => 0 | x :: t => fold_left Qmin t x end.
+Definition rr2_closed (z1 z2 K1 K2 : Q) : res Q :=
+  let num := - (K1 * z1 + K2 * z2) + (z1 + z2) in
+  let den := K1 * K2 * z1 + K1 * K2 * z2 - K1 * z2 - (K1 * z1 + K2 * z2) - K2 * z1 + (z1 + z2) in
+  if qzerob den then Err EZeroDiv else Ok (num / den).
+Definition phase_fraction_m (rr : Q) (zs Ks : vec) : res Q :=
+  if Nat.ltb 2 (length zs) then Ok (as_valid_fraction rr)
+  else if qleb (vmax Ks) c_1p then Ok 1
+  else if qleb c_1m (vmin Ks) then Ok 0
+  else match zs, Ks with
+       | [z1; z2], [K1; K2] => do v <- rr2_closed z1 z2 K1 K2; Ok (as_valid_fraction v)
+       | _, _ => Err EValue
+       end.
+
+(* the phase fraction of the cached branch of LLE.__call__: z computed as lle_call computes it *)
+Definition lle_cached_phi (islle : list bool) (rr : Q) (K : vec) (s : lst) : res Q :=
+  let pooled := vadd (l_l s) (l_L s) in
+  let ix := lle_idx islle pooled in
+  let mol := gather ix pooled in
+  phase_fraction_m rr (vdivs mol (qsum mol)) (fit (length ix) K).
+
+Definition pf_check (r : res Q) (expect : option Q) : bool :=
+  match r, expect with
+  | Ok a, Some b => qapproxb a b
+  | Err _, None => true
+  | _, _ => false
+  end.
+(* LLE.__call__ answered from the cache with the REAL phase_fraction *)
+Definition lle_check_pf (islle : list bool) (rr : Q) (o : lle_oracle) (s : lst) (expect : lst) (raised : bool) : bool :=
+  match lle_cached_phi islle rr (lo_K o) s with
+  | Ok phi => lle_check islle (mklo true (lo_K o) phi (lo_molL o) (lo_top o) (lo_mw o)) s expect raised
+  | Err _ => raised
+  end.
